@@ -8,8 +8,11 @@ hypotheses (`Good`, `Unforgeable`), never axioms.
 The authentication clause holds at full strength since 57b5264 (`C18_auth_holds : C18_auth_statement`: the signer is the
 *peer*, a session other than ourselves, or the attacker under a key of its own): `MakeSecretConnection` now rejects a peer
 that presents our own public key, which is what the reflection of our own handshake bytes amounted to.  The identity
-clause one layer up (`C18_identity_statement`: a peer's node identity is the authenticated key) still fails because
-nothing outside conn/ ever reads `RemotePubKey` (`identity_unbound`).
+clause one layer up holds since 7463840 (`C18_identity_holds : C18_identity_statement`: for every sequence of connection
+attempts every peer of the switch is registered under the ID of the key its connection authenticated; `no_id_squatting`,
+`honest_not_blocked`; T2 `identity_guard_present`).  The blacklist clause holds since faaf6b9
+(`C18_blacklist_holds : C18_blacklist_statement`, `blacklisted_never_joins`; T2 `cache_cleared_before_id_tests`): the
+peer-supplied `CachePeerID` is cleared before any test that calls `ID()`.
 -/
 import LinkVerif.Model.ConnCfg
 import LinkVerif.Props.C18Mux
@@ -514,14 +517,242 @@ theorem C18_auth_holds : C18_auth_statement := by
 
 /-! ## 4. identity one layer up (libs/p2p/switch.go addPeer) -/
 
-/-- FULL STATEMENT: the node identity under which a peer is admitted is decided from the key the connection authenticated.
-As a fact about the tree: some non-test code of libs/p2p outside conn/ reads `RemotePubKey`. -/
-def C18_identity_statement : Prop := Gen.ConnFacts.remotePubKeyUses ≠ []
+/-- the guard added by 7463840, as the extractor prints it -/
+def identityGuard : String :=
+  "sc, ok := pc.conn.(*conn.SecretConnection); ok && !sc.RemotePubKey().Equals(peerNodeInfo.PubKey)"
 
-/-- nothing does: `addPeer` takes the identity from the self-reported `NodeInfo.PubKey` and never compares it with the
-authenticated key, so any key holder can claim any node ID -/
-theorem identity_unbound : ¬ C18_identity_statement := by
-  unfold C18_identity_statement
-  decide
+/-- T2: the authenticated key IS consulted outside conn/, by a guard of `addPeer` that compares it with the claimed
+`NodeInfo.PubKey`, and that guard comes before the duplicate-ID test and before the peer is put into the peer set -/
+theorem identity_guard_present :
+    Gen.ConnFacts.remotePubKeyUses ≠ [] ∧ identityGuard ∈ Gen.ConnFacts.addPeerGuards ∧
+    Gen.ConnFacts.addPeerGuards.idxOf identityGuard < Gen.ConnFacts.addPeerGuards.idxOf "sw.peers.HasID(peerNodeInfo.ID())" ∧
+    Gen.ConnFacts.addPeerGuards.idxOf identityGuard < Gen.ConnFacts.addPeerGuards.idxOf "err := sw.peers.Add(peer); err != nil" ∧
+    "err := sw.peers.Add(peer); err != nil" ∈ Gen.ConnFacts.addPeerGuards := by decide
+
+/-- T2: the peer-supplied `CachePeerID` is cleared before the first test that calls `ID()` (blacklist), hence before the
+duplicate test too: `NodeInfo.ID()` returns a non-empty cache unchecked, so without this the peer picks the ID those tests see -/
+theorem cache_cleared_before_id_tests :
+    "peerNodeInfo.CachePeerID = \"\"" ∈ Gen.ConnFacts.addPeerGuards ∧
+    Gen.ConnFacts.addPeerGuards.idxOf "peerNodeInfo.CachePeerID = \"\"" < Gen.ConnFacts.addPeerGuards.idxOf "sw.blackListHasID(peerNodeInfo.ID())" ∧
+    Gen.ConnFacts.addPeerGuards.idxOf "sw.blackListHasID(peerNodeInfo.ID())" < Gen.ConnFacts.addPeerGuards.idxOf "sw.peers.HasID(peerNodeInfo.ID())" ∧
+    "sw.blackListHasID(peerNodeInfo.ID())" ∈ Gen.ConnFacts.addPeerGuards := by decide
+
+/-- what a successful admission looks like: the remote is not ourselves, the claimed key is the authenticated key, and
+exactly one peer is appended, under the ID of the authenticated key, which was free -/
+theorem admit_ok {auth : Key} {ni : Option NodeInfoM} {s s' : SwitchState} (h : admitPeer auth ni s = .ok s') :
+    auth ≠ s.self ∧ (∃ n, ni = some n ∧ n.pubKey = auth) ∧
+    s' = { s with peers := s.peers ++ [⟨idOf auth, auth⟩] } ∧
+    (s.peers.any (fun p => p.id == idOf auth)) = false ∧ s.blacklist.contains (idOf auth) = false := by
+  unfold admitPeer at h
+  split at h
+  next => cases h
+  next hself =>
+    split at h
+    next => cases h
+    next n =>
+      split at h
+      next => cases h
+      next hblk =>
+        split at h
+        next => cases h
+        next =>
+          split at h
+          next => cases h
+          next hkey =>
+            split at h
+            next => cases h
+            next =>
+              split at h
+              next => cases h
+              next hdup =>
+                split at h
+                next => cases h
+                next =>
+                  have hk : n.pubKey = auth := by simpa using hkey
+                  simp only [Except.ok.injEq] at h
+                  subst hk
+                  refine ⟨by simpa using hself, ⟨n, rfl, rfl⟩, h.symm, by simpa using hdup, by simpa using hblk⟩
+
+/-- every peer carries the ID of the key its connection authenticated, and is not ourselves -/
+def Wf (s : SwitchState) : Prop := ∀ p ∈ s.peers, p.id = idOf p.authKey ∧ p.authKey ≠ s.self
+
+theorem step_wf (s : SwitchState) (op : SwOp) (h : Wf s) : Wf (s.step op) ∧ (s.step op).self = s.self := by
+  cases op with
+  | conn auth ni =>
+    simp only [SwitchState.step]
+    cases ha : admitPeer auth ni s with
+    | error e => exact ⟨h, rfl⟩
+    | ok s' =>
+      obtain ⟨hself, _, rfl, _, _⟩ := admit_ok ha
+      refine ⟨?_, rfl⟩
+      intro p hp
+      simp only [List.mem_append, List.mem_singleton] at hp
+      rcases hp with hp | rfl
+      · exact h p hp
+      · exact ⟨rfl, hself⟩
+  | black k => exact ⟨h, rfl⟩
+  | drop a =>
+    refine ⟨?_, rfl⟩
+    intro p hp
+    simp only [SwitchState.step, List.mem_filter] at hp
+    exact h p hp.1
+
+theorem run_wf (ops : List SwOp) : ∀ s : SwitchState, Wf s → Wf (s.run ops) ∧ (s.run ops).self = s.self := by
+  induction ops with
+  | nil => intro s h; exact ⟨h, rfl⟩
+  | cons op ops ih =>
+    intro s h
+    obtain ⟨h1, h2⟩ := step_wf s op h
+    obtain ⟨h3, h4⟩ := ih (s.step op) h1
+    exact ⟨h3, by rw [← h2]; exact h4⟩
+
+/-- FULL STATEMENT of the identity clause: FOR EVERY sequence of connection attempts (any authenticated keys, any
+self-reported NodeInfo, blacklisting, disconnects), every peer in the switch's peer set is registered under the ID of the
+key its connection authenticated. -/
+def C18_identity_statement : Prop :=
+  ∀ (self : Key) (ops : List SwOp), ∀ p ∈ (SwitchState.run { self := self } ops).peers, p.id = idOf p.authKey
+
+/-- holds of the current code (guard of 7463840) -/
+theorem C18_identity_holds : C18_identity_statement := by
+  intro self ops p hp
+  exact ((run_wf ops { self := self } (by intro q hq; simp at hq)).1 p hp).1
+
+/-- **no_id_squatting** (one step): whatever NodeInfo it sends, the holder of `auth` can only ever occupy the ID of `auth` -/
+theorem no_id_squatting {auth : Key} {ni : Option NodeInfoM} {s s' : SwitchState} (h : admitPeer auth ni s = .ok s') :
+    ∀ p ∈ s'.peers, p ∉ s.peers → p.id = idOf auth ∧ p.authKey = auth := by
+  obtain ⟨_, _, rfl, _, _⟩ := admit_ok h
+  intro p hp hnot
+  simp only [List.mem_append, List.mem_singleton] at hp
+  rcases hp with hp | rfl
+  · exact absurd hp hnot
+  · exact ⟨rfl, rfl⟩
+
+/-- an operation that does not involve key `v`: no connection authenticated as `v`, no blacklisting of `v` -/
+def avoids (v : Key) : SwOp → Prop
+  | .conn a _ => a ≠ v
+  | .black k => k ≠ v
+  | .drop _ => True
+
+/-- **no_id_squatting** (denial-of-service form): after ANY sequence of attempts by other key holders — whatever identities
+they claimed — the honest holder of `v` is admitted -/
+theorem honest_not_blocked (self v : Key) (hv : v ≠ self) (ops : List SwOp) (hops : ∀ op ∈ ops, avoids v op) :
+    ∃ s', admitPeer v (some { pubKey := v }) (SwitchState.run { self := self } ops) = .ok s' := by
+  have inv : ∀ (ops : List SwOp) (s : SwitchState), (∀ op ∈ ops, avoids v op) →
+      (Wf s ∧ (∀ p ∈ s.peers, p.authKey ≠ v) ∧ idOf v ∉ s.blacklist ∧ s.self = self) →
+      (Wf (s.run ops) ∧ (∀ p ∈ (s.run ops).peers, p.authKey ≠ v) ∧ idOf v ∉ (s.run ops).blacklist ∧ (s.run ops).self = self) := by
+    intro ops
+    induction ops with
+    | nil => intro s _ h; exact h
+    | cons op ops ih =>
+      intro s hav h
+      apply ih (s.step op) (fun o ho => hav o (List.mem_cons_of_mem _ ho))
+      obtain ⟨hw, hp, hb, hs⟩ := h
+      have hop := hav op List.mem_cons_self
+      obtain ⟨hw', hs'⟩ := step_wf s op hw
+      refine ⟨hw', ?_, ?_, by rw [hs', hs]⟩
+      · cases op with
+        | conn a ni =>
+          simp only [SwitchState.step]
+          cases ha : admitPeer a ni s with
+          | error e => exact hp
+          | ok s' =>
+            obtain ⟨_, _, rfl, _, _⟩ := admit_ok ha
+            intro p hpm
+            simp only [List.mem_append, List.mem_singleton] at hpm
+            rcases hpm with hpm | rfl
+            · exact hp p hpm
+            · exact hop
+        | black k => exact hp
+        | drop a =>
+          intro p hpm
+          simp only [SwitchState.step, List.mem_filter] at hpm
+          exact hp p hpm.1
+      · cases op with
+        | conn a ni =>
+          simp only [SwitchState.step]
+          cases ha : admitPeer a ni s with
+          | error e => exact hb
+          | ok s' => obtain ⟨_, _, rfl, _, _⟩ := admit_ok ha; exact hb
+        | black k =>
+          simp only [SwitchState.step, List.mem_cons, not_or]
+          exact ⟨fun h => hop (by simpa [idOf] using h.symm), hb⟩
+        | drop a => exact hb
+  obtain ⟨hw, hp, hb, hs⟩ := inv ops { self := self } hops
+    ⟨by intro q hq; simp at hq, by intro q hq; simp at hq, by simp, rfl⟩
+  have hany : ((SwitchState.run { self := self } ops).peers.any (fun p => p.id == idOf v)) = false := by
+    rw [List.any_eq_false]
+    intro p hpm
+    have h1 := (hw p hpm).1
+    have h2 := hp p hpm
+    intro h
+    rw [h1] at h
+    exact h2 (beq_iff_eq.mp h)
+  have hbl : (SwitchState.run { self := self } ops).blacklist.contains (idOf v) = false := by
+    simpa using hb
+  refine ⟨{ (SwitchState.run { self := self } ops) with
+            peers := (SwitchState.run { self := self } ops).peers ++ [⟨idOf v, v⟩] }, ?_⟩
+  simp only [admitPeer, hs, hbl, hany, bne_self_eq_false, Bool.not_true,
+    Bool.false_eq_true, ↓reduceIte, beq_iff_eq, hv]
+
+/-- non-vacuity and the scenarios of the harness corpus, through the model -/
+example : admitPeer 2 (some { pubKey := 3 }) { self := 0 } = .error .keyMismatch := rfl
+example : (SwitchState.run { self := 0 } [.conn 2 (some { pubKey := 3 }), .conn 1 (some { pubKey := 3 }), .conn 3 (some { pubKey := 3 })]).peers
+    = [⟨3, 3⟩] := by decide
+example : admitPeer 1 (some { pubKey := 0 }) { self := 0 } = .error .keyMismatch := rfl
+
+/-- FULL STATEMENT (blacklist): in EVERY state, whatever NodeInfo it sends (any `CachePeerID`), a key holder whose node ID
+the switch blacklisted is not admitted. -/
+def C18_blacklist_statement : Prop :=
+  ∀ (auth : Key) (ni : Option NodeInfoM) (s s' : SwitchState), idOf auth ∈ s.blacklist → admitPeer auth ni s ≠ .ok s'
+
+/-- holds of the current code (faaf6b9: the peer-supplied cache is cleared before the blacklist test) -/
+theorem C18_blacklist_holds : C18_blacklist_statement := by
+  intro auth ni s s' hb h
+  obtain ⟨_, _, _, _, hnb⟩ := admit_ok h
+  have : s.blacklist.contains (idOf auth) = true := by simpa using hb
+  rw [this] at hnb
+  cases hnb
+
+/-- a forged cache ID no longer helps: the corpus witness through the model -/
+example : admitPeer 4 (some { pubKey := 4, cacheId := some 5 }) { self := 0, blacklist := [4] } = .error .blacklisted := rfl
+
+theorem step_blacklist_mono (s : SwitchState) (op : SwOp) (i : NodeId) (h : i ∈ s.blacklist) : i ∈ (s.step op).blacklist := by
+  cases op with
+  | conn a ni =>
+    simp only [SwitchState.step]
+    cases ha : admitPeer a ni s with
+    | error e => exact h
+    | ok s' => obtain ⟨_, _, rfl, _, _⟩ := admit_ok ha; exact h
+  | black k => exact List.mem_cons_of_mem _ h
+  | drop a => exact h
+
+/-- over every op sequence: once the switch has blacklisted `k` (the model's blacklist never shrinks; the 600 s expiry timer
+of `MarkBadNode` is not modelled), no later connection attempt — whatever it claims — brings a connection authenticated as `k`
+into the peer set: every such peer was already connected before -/
+theorem blacklisted_never_joins (k : Key) (ops : List SwOp) :
+    ∀ s : SwitchState, idOf k ∈ s.blacklist → ∀ p ∈ (s.run ops).peers, p.authKey = k → p ∈ s.peers := by
+  induction ops with
+  | nil => intro s _ p hp _; exact hp
+  | cons op ops ih =>
+    intro s hb p hp hk
+    have hp1 := ih (s.step op) (step_blacklist_mono s op _ hb) p hp hk
+    cases op with
+    | conn a ni =>
+      simp only [SwitchState.step] at hp1
+      cases ha : admitPeer a ni s with
+      | error e => simpa [ha] using hp1
+      | ok s' =>
+        rw [ha] at hp1
+        obtain ⟨_, _, rfl, _, hnb⟩ := admit_ok ha
+        simp only [List.mem_append, List.mem_singleton] at hp1
+        rcases hp1 with hp1 | rfl
+        · exact hp1
+        · simp only at hk
+          subst hk
+          exact absurd ha (C18_blacklist_holds _ ni s _ hb)
+    | black j => exact hp1
+    | drop a =>
+      simp only [SwitchState.step, List.mem_filter] at hp1
+      exact hp1.1
 
 end Props.C18
